@@ -76,15 +76,20 @@ StepCall(e) ==
                 [] OTHER -> TimeOp(cur, fin, exec, tick)
          oc == ObsRec(e.cur)
          of == ObsRec(e.fin)
-         A1 == IF o.res # e.res
+         \* the specification refuses the packet for an authentication reason, the code acted on it
+         unauth == /\ x.k = "pkt" /\ ~dup /\ o.res # "ok" /\ o.why \in AuthRefusals
+                   /\ (e.res = "ok" \/ oc # cur \/ of # fin)
+         A0 == IF unauth THEN {Alarm("C09_AcceptedUnauthenticated", x.typ \o "-" \o o.why, e, x,
+                                     "spec " \o o.res \o " (" \o o.why \o "), code " \o e.res)} ELSE {}
+         A1 == IF o.res # e.res /\ ~unauth
                  THEN {Alarm("Conformance", "result", e, x, "spec " \o o.res \o " (" \o o.why \o "), code " \o e.res \o " (" \o e.err \o ")")} ELSE {}
-         A2 == IF o.cur # oc THEN {Alarm("Conformance", "current-bucket", e, x, "spec " \o o.cur.st \o " (" \o o.why \o "), code " \o oc.st)} ELSE {}
+         A2 == IF o.cur # oc /\ ~unauth THEN {Alarm("Conformance", "current-bucket", e, x, "spec " \o o.cur.st \o " (" \o o.why \o "), code " \o oc.st)} ELSE {}
          A3 == IF o.fin # of THEN {Alarm("Conformance", "finished-bucket", e, x, "spec " \o o.fin.st \o ", code " \o of.st)} ELSE {}
          A4 == IF e.res = "blocked" THEN {Alarm("Blocked", What(x), e, x, "the call did not return")} ELSE {}
          A5 == IF "storeerr" \in DOMAIN e THEN {Alarm("Harness", "store-read", e, x, e.storeerr)} ELSE {}
          M8 == {Alarm(f[1], f[2], e, x, "") : f \in C08Fails(tme, x, now2, e.res, cur, fin, oc, of)}
          M9 == {Alarm(f[1], f[2], e, x, "") : f \in C09Fails(tme, x, tick, e.res, cur, fin, oc, of)}
-     IN /\ alarms' = alarms \cup A1 \cup A2 \cup A3 \cup A4 \cup A5 \cup M8 \cup M9
+     IN /\ alarms' = alarms \cup A0 \cup A1 \cup A2 \cup A3 \cup A4 \cup A5 \cup M8 \cup M9
         /\ cur' = oc /\ fin' = of
         /\ exec' = IF (x.k = "cmd" /\ x.cmd = "execute") \/ (x.k = "pkt" /\ x.typ = "execute" /\ ~dup)
                      THEN (IF e.res = "ok" THEN "running" ELSE exec)
